@@ -9,6 +9,7 @@ import GormModel.Lemmas.CallbacksReach
 import GormModel.Lemmas.CallbacksPost
 import GormModel.Lemmas.CallbacksTable
 import GormModel.Lemmas.CallbacksFuel
+import GormModel.Lemmas.CallbacksPrefix
 import GormModel.Gen.Pipelines
 namespace Gorm
 open Gen
@@ -119,6 +120,30 @@ theorem C17_visit_places (names : List String) (fuel i : Nat) (st : SortSt)
          ((sortCallback names fuel i st).1.cs[j]!).after ∈ (sortCallback names fuel i st).1.sorted :=
   sortCallback_post names fuel i st hw hi hok
 
+/-- BUILT-IN ORDER, table form (all sizes): if the table handed to the main loop (= after the
+    `sort.SliceStable` pre-pass) starts with `k` records that carry no request and have pairwise distinct
+    names -- the situation of the built-in callbacks as long as nobody is registered Before("*") or under a
+    built-in name -- then these `k` names occur in the computed order in exactly their table order, whatever
+    the remaining records request and whether or not an error is returned. (The step from histories to this
+    table shape is NOT proved; the e2e oracle judges the built-in order for histories.) -/
+theorem C17_unconstrained_prefix_keeps_order (cs0 : List Cb) (k : Nat) (hk : k ≤ (stableSortCbs cs0).length)
+    (hp : ∀ j, j < k → ((stableSortCbs cs0)[j]!).before = "" ∧ ((stableSortCbs cs0)[j]!).after = "")
+    (hnd : (((stableSortCbs cs0).take k).map (·.name)).Nodup) :
+    (((stableSortCbs cs0).take k).map (·.name)).Sublist (sortCallbacks cs0).sorted := by
+  have h := sortLoop_prefix_order (stableSortCbs cs0) k hk (sortFuel (stableSortCbs cs0).length)
+    (by simp [sortFuel]) hp hnd
+  unfold sortCallbacks
+  simp only
+  split
+  · rename_i st e heq
+    rw [heq] at h; exact h
+  · rename_i st heq
+    rw [heq] at h; exact h
+
+/-- non-vacuity: the seven built-ins of the create pipeline followed by two user callbacks with requests -/
+example : ((stableSortCbs [{name := "a"}, {name := "b"}, {name := "x", before := "b"}, {name := "y", after := "*"}]).take 2).map (·.name)
+    = ["a", "b"] := by decide
+
 /-- The negation of F12's pattern, as a predicate over the history: the requested precedences
     ("`After(a).Register(n)`: a before n", "`Before(b).Register(n)`: n before b") among names that are
     registered somewhere in the history are ACYCLIC -- witnessed by a rank function. (A self reference or
@@ -199,6 +224,18 @@ theorem C17_star_pulled_forward_counterexample :
     let r := Proc.run {} [.register "a" "" "" true 0, .register "s" "" "*" true 1, .register "q" "" "s" true 2,
       .register "p" "" "" true 3]
     r.2 = [none, none, none, none] ∧ r.1.order = ["a", "s", "q", "p"] := by
+  decide
+
+/-- FINDING F19 (counterexample; found by the thorough tier with the widened generator, reproduced on the real
+    API): a name registered twice, once Before("*") and once After("*"): an unrelated plain Replace of `a`
+    moves `u` from the tail to the head (and switches its handler) -- the Replace does not leave the other
+    callbacks at their positions. -/
+theorem C17_duplicate_star_reshuffled_counterexample :
+    let h : List RegOp := [.register "a" "" "" true 0, .register "b" "" "" true 1, .register "u" "*" "" true 2,
+      .register "u" "" "*" true 3]
+    (Proc.run {} h).1.order = ["a", "b", "u"] ∧
+    (Proc.run {} (h ++ [.replace "a" "" "" 9])).1.order = ["u", "a", "b"] ∧
+    (Proc.run {} (h ++ [.replace "a" "" "" 9])).2 = [none, none, none, none, none] := by
   decide
 
 /-- positive instance (non-vacuity of the model): Before/After requests that gorm does honour -/
